@@ -212,6 +212,11 @@ def op_menu(w, rng, tmpdir):
                     lambda ww, fa=fa: ww.mgr.quantify(ww.held[i], set(qv), forall=fa)))
     ops.append((('quantify', dict(u=refval(j, 1), qvars=qv, forall=False, route='short')),
                 lambda ww: ww.mgr.exist(set(qv), ww.held[j])))
+    # the variables as a ONE-SHOT iterable (`qvars: Iterable[...]`): a retried call gets the same object
+    ops.append((('quantify', dict(u=refval(j, 1), qvars=qv, forall=False, route='short', form='generator')),
+                lambda ww: ww.mgr.exist((x for x in qv), ww.held[j])))
+    ops.append((('quantify', dict(u=refval(i, 1), qvars=qv, forall=True, route='quantify', form='iterator')),
+                lambda ww: ww.mgr.quantify(ww.held[i], iter(qv), forall=True)))
     ops.append((('quantify', dict(u=refval(j, 1), qvars=qv, forall=True, route='short')),
                 lambda ww: ww.mgr.forall(set(qv), ww.held[j])))
     if w.kind == 'autoref':
